@@ -264,13 +264,28 @@ func (rw *rewriter) syncMethod(call *ast.CallExpr) (typ, method string, recv ast
 	if !isN {
 		return
 	}
-	if len(s.Index()) > 1 {
-		problem(rw.fset, call.Pos(), "sync method %s promoted through embedding", fn.Name())
-		return
-	}
 	xt := rw.info.TypeOf(sel.X)
+	x := sel.X
+	if idx := s.Index(); len(idx) > 1 {
+		// method promoted through embedded fields: spell the path out (x.Mutex.Lock())
+		t := xt
+		for _, i := range idx[:len(idx)-1] {
+			if p, isP := t.Underlying().(*types.Pointer); isP {
+				t = p.Elem()
+			}
+			st, isS := t.Underlying().(*types.Struct)
+			if !isS || i >= st.NumFields() {
+				problem(rw.fset, call.Pos(), "sync method %s promoted through embedding (unexpected shape)", fn.Name())
+				return
+			}
+			f := st.Field(i)
+			x = &ast.SelectorExpr{X: x, Sel: ast.NewIdent(f.Name())}
+			t = f.Type()
+		}
+		xt = t
+	}
 	_, isPtr = xt.Underlying().(*types.Pointer)
-	return named.Obj().Name(), fn.Name(), sel.X, isPtr, true
+	return named.Obj().Name(), fn.Name(), x, isPtr, true
 }
 
 func addr(x ast.Expr, isPtr bool) ast.Expr {
@@ -426,6 +441,32 @@ func (rw *rewriter) post(c *astutil.Cursor) bool {
 			}
 		}
 	case *ast.SelectorExpr:
+		// a method value of a sync type (unlock := mu.Unlock): wrap the rewritten call in a closure
+		if sl := rw.info.Selections[n]; sl != nil && sl.Kind() == types.MethodVal {
+			if fn, isFn := sl.Obj().(*types.Func); isFn && fn.Pkg() != nil && fn.Pkg().Path() == "sync" {
+				if pc, isCall := c.Parent().(*ast.CallExpr); !isCall || pc.Fun != ast.Expr(n) {
+					switch fn.Name() {
+					case "Lock", "Unlock", "RLock", "RUnlock", "Wait", "Signal", "Broadcast":
+						call := &ast.CallExpr{Fun: n}
+						lit := &ast.FuncLit{Type: &ast.FuncType{Params: &ast.FieldList{}}, Body: &ast.BlockStmt{List: []ast.Stmt{&ast.ExprStmt{X: call}}}}
+						rw.info.Selections[n] = sl
+						c.Replace(lit)
+						// rewrite the inner call now (the traversal does not descend into the replacement)
+						astutil.Apply(lit.Body, nil, func(ic *astutil.Cursor) bool {
+							if ce, ok := ic.Node().(*ast.CallExpr); ok && ce == call {
+								rw.postCall(ic, ce)
+							}
+							return true
+						})
+						rw.stats["method-value"]++
+						return true
+					case "Done", "Add", "Get", "Put", "Load", "Store", "Delete", "Range", "LoadOrStore", "LoadAndDelete":
+					default:
+						problem(rw.fset, n.Pos(), "method value sync.%s", fn.Name())
+					}
+				}
+			}
+		}
 		path, name, obj := rw.pkgObj(n)
 		if path == "time" {
 			if _, isType := obj.(*types.TypeName); isType && (name == "Timer" || name == "Ticker") {
@@ -470,6 +511,10 @@ func (rw *rewriter) postCall(c *astutil.Cursor, n *ast.CallExpr) {
 				return
 			case path == "time" && (name == "Tick"):
 				problem(rw.fset, n.Pos(), "time.%s", name)
+			case path == "context" && name == "AfterFunc":
+				args := append([]ast.Expr{rw.site(n.Pos())}, n.Args...)
+				c.Replace(rw.call("ContextAfterFunc", args...))
+				return
 			case path == "math/rand" && randFuncs[name]:
 				c.Replace(rw.call("Rand"+name, n.Args...))
 				return
@@ -505,6 +550,18 @@ func (rw *rewriter) postCall(c *astutil.Cursor, n *ast.CallExpr) {
 		c.Replace(rw.call("Unlock", addr(recv, isPtr)))
 	case "Mutex.TryLock":
 		c.Replace(rw.call("TryLock", site, addr(recv, isPtr)))
+	case "RWMutex.TryLock":
+		c.Replace(rw.call("RWTryLock", site, addr(recv, isPtr)))
+	case "RWMutex.TryRLock":
+		c.Replace(rw.call("RWTryRLock", site, addr(recv, isPtr)))
+	case "Cond.Wait":
+		c.Replace(rw.call("CondWait", site, addr(recv, isPtr)))
+	case "Cond.Signal":
+		c.Replace(rw.call("CondSignal", site, addr(recv, isPtr)))
+	case "Cond.Broadcast":
+		c.Replace(rw.call("CondBroadcast", site, addr(recv, isPtr)))
+	case "Pool.Get", "Pool.Put":
+		// non-blocking
 	case "RWMutex.Lock":
 		c.Replace(rw.call("RWLock", site, addr(recv, isPtr)))
 	case "RWMutex.Unlock":
